@@ -319,6 +319,9 @@ Proof.
       apply Quiet_set_job. intros y. apply Q_mk_imap. auto.
     + apply Quiet_set_job. intros y. apply Q_mk_imap. auto.
   - apply Quiet_do_tick_close.
+  - unfold do_join_shutdown. destruct (wlist s0); cbn [fst]; [|apply Quiet_join_exited].
+    unfold mark_all_lost. apply Quiet_map_jobs. intros x.
+    destruct (lost_due s0 x); [apply Q_mark_lost|apply Q_refl].
 Qed.
 
 (* ------------------------------------------------------------ the invariant *)
